@@ -7,7 +7,11 @@
 ST=${ST:-/tmp/vst}
 pat="${1:-}"
 mkdir -p $ST/verif
-rsync -a --delete --exclude target --exclude .git /repo/ $ST/repo/
+# content-based copy that does not preserve mtimes: a file that differs is rewritten with the
+# current time (cargo rebuilds), an identical file keeps the newer mtime a previous
+# "git checkout" gave it. Preserving /repo's old mtimes would let cargo reuse artefacts that
+# were built from a previously patched tree.
+rsync -rlpc --delete --exclude target --exclude .git /repo/ $ST/repo/
 rsync -a --delete --exclude target /verif/harness/ $ST/verif/harness/
 rsync -a --delete /verif/regress/ $ST/verif/regress/
 cp /verif/known_findings.json /verif/run $ST/verif/
